@@ -145,6 +145,15 @@ func TestC14Fwd(t *testing.T) {
 			s.Dir.Prec = "."
 		}
 		s.Dir.Verb = ax.verbs[rapid.IntRange(0, len(ax.verbs)-1).Draw(rt, "verb")]
+		if s.Dir.Width == "*" && rapid.IntRange(0, 3).Draw(rt, "stark") == 0 {
+			s.StarKind = c14StarKinds[rapid.IntRange(0, len(c14StarKinds)-1).Draw(rt, "starkind")]
+			if s.StarKind == "uint8" {
+				s.StarW = rapid.IntRange(0, 40).Draw(rt, "sw8")
+			}
+		}
+		if rapid.IntRange(0, 2).Draw(rt, "sibk") == 0 {
+			s.Sib = c14SiblingNames[rapid.IntRange(0, len(c14SiblingNames)-1).Draw(rt, "sib")]
+		}
 		return s
 	})
 }
